@@ -523,7 +523,7 @@ class TreeTransformBase(TreeTransform):
         """
         orphans = []
         # Find the potential orphans, stop if one item should be kept
-        for child_tid in self.by_parent()[dir_id]:
+        for child_tid in self.by_parent().get(dir_id, ()):
             if child_tid in self._removed_contents:
                 # The child is removed as part of the transform. Since it was
                 # versioned before, it's not an orphan
@@ -1639,6 +1639,23 @@ class GitTreeTransform(DiskTreeTransform):
             changed_ids.update(id_set)
         for id_set in [self._new_name, self._new_parent]:
             removed_id.update(id_set)
+        # Entries that only become versioned need an index entry as well.
+        changed_ids.update(self._versioned)
+        # Renaming a directory changes the path of everything versioned below
+        # it: the index is keyed by path, so re-add those entries.
+        moved_dirs = [
+            self._tree_id_paths[t]
+            for t in set(self._new_name).union(self._new_parent)
+            if t in self._tree_id_paths and self.tree_kind(t) == "directory"
+        ]
+        if moved_dirs:
+            for path in list(self._tree.all_versioned_paths()):
+                if any(path.startswith(d + "/") for d in moved_dirs if d):
+                    if self._tree.kind(path) == "directory":
+                        continue
+                    t = self.trans_id_tree_path(path)
+                    removed_id.add(t)
+                    changed_ids.add(t)
         # so does adding
         changed_kind = set(self._new_contents)
         # Ignore entries that are already known to have changed.
@@ -2035,6 +2052,8 @@ class GitPreviewTree(PreviewTree, GitTree):
         if trans_id in self._transform._removed_id:
             return False
         orig_path = self._transform.tree_path(trans_id)
+        if orig_path is None:
+            return False
         return self._transform._tree.is_versioned(orig_path)
 
     def iter_entries_by_dir(self, specific_files=None, recurse_nested=False):
